@@ -384,7 +384,7 @@ impl WeightedAliasIndex {
         let n = n as u32;
 
         let max_weight_size = W::try_from_u32_lossy(n)
-            .map(|n: W| -> (r: W) requires n != 0 ensures r == W::MAX / n { W::MAX / n })
+            .map(|n: W| -> (r: W) requires n > 0 ensures r == W::MAX / n { W::MAX / n })
             .unwrap_or(W::ZERO);
 //@        proof {
 //@            if n as int > TTT::MAX as int { assert((TTT::MAX as int) / (n as int) == 0) by (nonlinear_arith) requires n as int > TTT::MAX as int, TTT::MAX as int >= 0; }
@@ -410,6 +410,7 @@ impl WeightedAliasIndex {
             return Err(Error::InsufficientNonZero);
         }
 //@        let ghost gs = weight_sum as int;
+//@        proof { lemma_seq_sum_nonneg(w, nn); }
 
         // `weight_sum` would have been zero if `try_from_lossy` causes an error here.
 //@        proof { if nn > TTT::MAX as int { lemma_sum_bound(w, nn, 0); } }
@@ -761,11 +762,12 @@ pub proof fn lemma_table_bound(t: WeightedAliasIndex, w: Seq<W>, i: int)
     ensures (w.len() as int) * (w[i] as int) <= TTT::MAX
 { }
 pub proof fn lemma_seq_sum_ge(w: Seq<W>, n: int, i: int)
-    requires 0 <= i < n <= w.len()
+    requires 0 <= i < n <= w.len(), forall|j: int| 0 <= j < w.len() ==> 0 <= #[trigger] w[j]
     ensures seq_sum(w, n) >= w[i]
     decreases n
 { lemma_seq_sum_nonneg(w, n - 1); if i < n - 1 { lemma_seq_sum_ge(w, n - 1, i); } }
 pub proof fn lemma_seq_sum_nonneg(w: Seq<W>, n: int)
+    requires n <= w.len(), forall|j: int| 0 <= j < w.len() ==> 0 <= #[trigger] w[j]
     ensures seq_sum(w, n) >= 0
     decreases n
 { if n > 0 { lemma_seq_sum_nonneg(w, n - 1); } }
@@ -930,6 +932,52 @@ pub proof fn lemma_columns_ok(t: WeightedAliasIndex, w: Seq<W>)
         if o[c] as int > 0 { assert(pick(o, a, c, 0) == c); }
         if (o[c] as int) < s { assert(pick(o, a, c, o[c] as int) == a[c] as int); }
     }
+}
+
+// ------------------------------------------------------------------ C08 headline: exact probabilities
+/// number of thresholds t in [0, upto) for which column c yields index i
+pub open spec fn col_count(o: Seq<W>, a: Seq<u32>, c: int, i: int, upto: int) -> int decreases upto {
+    if upto <= 0 { 0 } else { col_count(o, a, c, i, upto - 1) + (if pick(o, a, c, upto - 1) == i { 1int } else { 0 }) }
+}
+pub proof fn lemma_col_count(o: Seq<W>, a: Seq<u32>, c: int, i: int, upto: int)
+    requires 0 <= o[c] as int, 0 <= upto
+    ensures col_count(o, a, c, i, upto) ==
+        (if c == i { if upto <= o[c] as int { upto } else { o[c] as int } } else { 0 })
+        + (if a[c] as int == i { if upto <= o[c] as int { 0 } else { upto - o[c] as int } } else { 0 })
+    decreases upto
+{ if upto > 0 { lemma_col_count(o, a, c, i, upto - 1); } }
+
+pub proof fn lemma_isum_add(f: spec_fn(int) -> int, g: spec_fn(int) -> int, h: spec_fn(int) -> int, n: int)
+    requires forall|j: int| 0 <= j < n ==> #[trigger] h(j) == f(j) + g(j)
+    ensures isum(h, n) == isum(f, n) + isum(g, n)
+    decreases n
+{ if n > 0 { lemma_isum_add(f, g, h, n - 1); } }
+
+pub proof fn lemma_isum_single(f: spec_fn(int) -> int, n: int, p: int)
+    requires 0 <= p < n, forall|j: int| 0 <= j < n && j != p ==> #[trigger] f(j) == 0
+    ensures isum(f, n) == f(p)
+    decreases n
+{
+    if n - 1 == p { lemma_isum_zero_fn(f, n - 1); } else { lemma_isum_single(f, n - 1, p); }
+}
+
+/// Of the n * S equally likely (column, threshold) pairs, exactly n * w[i] select index i:
+/// P(sample == i) = n*w[i] / (n*S) = w[i] / sum(w)   (uniformity and independence of the two draws are assumed)
+pub proof fn lemma_alias_exact(t: WeightedAliasIndex, w: Seq<W>, i: int)
+    requires table_ok(t, w), 0 <= i < w.len()
+    ensures isum(|c: int| col_count(t.no_alias_odds@, t.aliases@, c, i, t.weight_sum as int), w.len() as int) == (w.len() as int) * (w[i] as int)
+{
+    let o = t.no_alias_odds@; let a = t.aliases@; let s = t.weight_sum as int; let nn = w.len() as int;
+    let h = |c: int| col_count(o, a, c, i, s);
+    let f = |c: int| if c == i { o[c] as int } else { 0int };
+    let g = t_final_contrib(a, o, s, i);
+    assert forall|c: int| 0 <= c < nn implies #[trigger] h(c) == f(c) + g(c) by {
+        assert(0 <= o[c] as int <= s);
+        lemma_col_count(o, a, c, i, s);
+    }
+    lemma_isum_add(f, g, h, nn);
+    lemma_isum_single(f, nn, i);
+    assert(o[i] as int + isum(g, nn) == nn * (w[i] as int));
 }
 
 //@@vacuity
